@@ -9,12 +9,81 @@ def kw(rng, i):
             "policy": rng.choice(["fifo", "random", "lifo"]), "n_requests": rng.randint(1, 5), "worker": rng.choice(["asyncio", "trio"])}
 
 
+def malformed_message_cases(ctx):
+    """'... (an aborted or malformed message) the server announces close on the response and closes after it': a request
+    whose body turns out malformed (a bad chunk-size line, more bytes than announced cannot happen, a bad chunk terminator)
+    while the application is still waiting for it - first request of the connection or a later one - is answered 400 with
+    connection: close, nothing more is served, and the connection is closed."""
+    import random
+
+    import h11
+
+    from . import rig as R
+    from . import sched as S
+
+    rng = random.Random(ctx.seed * 52361 + 3)
+    fails, n = [], ctx.scale(40, 400, 120)
+    for i in range(n):
+        before = rng.choice([0, 1, 2])
+        bad = rng.choice([b"zz\r\n", b"-1\r\n", b"5\r\nhelloXX", b"\r\n"])
+        good = rng.choice([b"", b"5\r\nhello\r\n"])
+        worker = rng.choice(["asyncio", "trio"])
+        d = S.Driver(seed=ctx.seed + i, policy=rng.choice(["fifo", "random"]))
+        cfg = R.make_config(())
+        cfg._log = R.RecLog([])
+        recs = []
+        answer = [("recv_all",), ("send", {"type": "http.response.start", "status": 200, "headers": [(b"content-length", b"2")]}),
+                  ("send", {"type": "http.response.body", "body": b"ok"})]
+        rig = S.ProtoRig(S.scripted_app([answer] * 5, recs, d), cfg, d, worker=worker)
+        for _ in range(before):
+            rig.feed(b"GET /k HTTP/1.1\r\nHost: x\r\n\r\n")
+            rig.run()
+        rig.feed(b"POST /m HTTP/1.1\r\nHost: x\r\nTransfer-Encoding: chunked\r\n\r\n" + good)
+        rig.run()
+        rig.feed(bad)
+        rig.run()
+        rig.feed(b"GET /after HTTP/1.1\r\nHost: x\r\n\r\n")
+        rig.run()
+        wire = bytes(rig.transport.written)
+        case = {"kind": "malformed-body", "requests_before": before, "good": repr(good), "bad": repr(bad), "worker": worker, "wire_tail": repr(wire[-120:])}
+        c = h11.Connection(h11.CLIENT)
+        statuses, last_headers = [], None
+        c.receive_data(wire)
+        try:
+            for _ in range(before + 1):
+                c.send(h11.Request(method="GET", target="/", headers=[("host", "x")]))
+                c.send(h11.EndOfMessage())
+                while True:
+                    ev = c.next_event()
+                    if isinstance(ev, h11.Response):
+                        statuses.append(ev.status_code)
+                        last_headers = [(bytes(a), bytes(b)) for a, b in ev.headers]
+                    if ev is h11.NEED_DATA or isinstance(ev, (h11.EndOfMessage, h11.ConnectionClosed)):
+                        break
+                if c.our_state is h11.DONE and c.their_state is h11.DONE:
+                    c.start_next_cycle()
+                else:
+                    break
+        except (h11.RemoteProtocolError, h11.LocalProtocolError) as e:
+            statuses.append("unparsable:" + repr(e)[:40])
+        want = [200] * before + [400]
+        if statuses != want:
+            fails.append({"case": case, "what": f"responses {statuses}, expected {want}", "signature": "c06:malformed-not-answered-400"})
+        elif (b"connection", b"close") not in [(a.lower(), b.lower()) for a, b in last_headers or []]:
+            fails.append({"case": case, "what": "the 400 does not announce connection: close", "signature": "c06:malformed-close-not-announced"})
+        if not rig.closed:
+            fails.append({"case": case, "what": "connection not closed after the malformed message", "signature": "c06:malformed-not-closed"})
+        if any(r["scope"]["path"] == "/after" for r in recs):
+            fails.append({"case": case, "what": "a request after the malformed message was served", "signature": "c06:served-after-malformed"})
+    return {"failures": fails, "count": n, "dist": {"malformed_message_cases": n}}
+
+
 def run(ctx):
     return K.run_common(ctx, PROP, ["c06", "c18"], (350, 4000, 1500), None, (350, 5000, 2000), kw,
                         "pipelines of 1-5 requests with arbitrary bodies and Connection headers, all-in-one-read to many splits, "
                         "applications answering before / while / after reading or not reading; keep_alive_max_requests 0..3; "
                         "oracle: instance k+1 starts only after k complete responses are on the wire, bytes never leak between "
-                        "requests, reuse only when allowed, close announced and executed.")
+                        "requests, reuse only when allowed, close announced and executed.", extra=malformed_message_cases)
 
 
 def known_still_fails(k):
